@@ -106,6 +106,39 @@ def check_gate(chk, prog, eff, L, label, rule="C19.gate"):
     return len(ps)
 
 
+def check_refusal_justified(chk, rule, prog, eff):
+    """creation_failed (reported as MEMERROR) is raised by a builder callback only on a path on which something that can
+    fail did fail: an allocator-backed constructor returned NULL, the stack push was refused, an insertion returned false
+    (or, where the flag is assigned from a call's result, through that assignment).  A guard of its own making - a depth
+    or size test the grammar does not ask for - would refuse input that is within the limits."""
+    import paths as P
+    import ownership as O
+    load = prog.fn("cbor_load")
+    g = prog.global_for(load, "cbor_load.callbacks")
+    cf_off = prog.field_offset("_cbor_decoder_context", "creation_failed")
+    builders = sorted({el.name for el in g["init_val"].elems if hasattr(el, "name")}) + ["_cbor_builder_append"]
+    n = 0
+    for bn in builders:
+        f = prog.fn(bn)
+        where = "%s:%d" % (f.file, f.line)
+        for k, pa in enumerate(P.Executor(prog, eff, inline=O.static_callees(prog, eff, bn)).run(bn)):
+            sets = [e for e in pa.events if e.kind == "store" and P.ptr_key(e.args[0])[1] == cf_off and e.extra == "i8" and e.args[1] == ("c", 1)]
+            if not sets:
+                continue
+            n += 1
+            upto = sets[0].nfacts
+            failed = [e for e in pa.events[:pa.events.index(sets[0])] if e.kind == "call" and e.ckind in ("lib", "alloc") and e.res is not None and
+                      e.res != ("void",) and (pa.st.known_null(e.res, upto=upto) or {t: v for t, v, _ in pa.facts[:upto]}.get(e.res) is False)]
+            # the 64-bit length that cannot be a size_t (vacuous on LP64, present on narrower targets)
+            wide = any(t[0] == "icmp" and t[1] in ("ugt", "uge") and P.is_const(t[3]) and t[3][1] >= (1 << 32) - 1 and truth for t, truth, _ in pa.facts[:upto])
+            ok = bool(failed) or wide
+            chk.ob(rule, "%s path %d: creation_failed only after a callee failed" % (bn, k), ok, sets[0].ins.loc(), fn=bn, key="%s:cfj:%d" % (bn, k),
+                   detail=("%s failed" % failed[0].callee) if failed else ("length exceeds size_t" if wide else
+                           "the flag is raised although no constructor, push or insertion failed on this path: input within the limits is refused"),
+                   path=pa.block_lines() if not ok else None)
+    chk.floor(rule, "paths that raise creation_failed", n, 20)
+
+
 def run(ctx, chk):
     prog = ctx.prog()
     eff = ctx.effects(prog)
@@ -150,10 +183,14 @@ def run(ctx, chk):
     redefs = []
     for root, _, files in os.walk(os.path.join(REPO, "src")):
         for fn in files:
-            if fn.endswith((".c", ".h")):
+            if fn.endswith((".c", ".h", ".in")):
                 txt = open(os.path.join(root, fn), errors="replace").read()
-                if re.search(r"#\s*(define|undef)\s+CBOR_MAX_STACK_SIZE\b", txt):
-                    redefs.append(os.path.relpath(os.path.join(root, fn), REPO))
+                hits = re.findall(r"#\s*(?:define|undef)\s+CBOR_MAX_STACK_SIZE\b[^\n]*", txt)
+                if fn == "configuration.h.in":
+                    # the one templated definition is the plumbing itself; anything else (a clamp, an #undef) changes the limit
+                    hits = [h for h in hits if not re.match(r"#\s*define\s+CBOR_MAX_STACK_SIZE\s+\$\{CBOR_MAX_STACK_SIZE\}\s*$", h)]
+                if hits:
+                    redefs.append("%s: %s" % (os.path.relpath(os.path.join(root, fn), REPO), hits[0].strip()))
     chk.ob("C19.plumbing", "no source re-defines CBOR_MAX_STACK_SIZE", not redefs, "src/", detail=str(redefs), nontrivial=False)
 
     # who may write size
@@ -247,6 +284,9 @@ def run(ctx, chk):
         chk.ob("C19.descent", "SCC {%s}: every cycle descends (%d edges)" % (name, len(r["edges"])), ok, where, fn=r["scc"][0],
                key="descent:" + name, detail=det)
     # the operations on a decoded tree complete: they do not give up on account of its depth
+    chk.rule("C19.refusal-justified", "a builder callback raises creation_failed (MEMERROR) only where a constructor, the stack push or an "
+                                      "insertion failed: nesting within the limit is never refused by a guard of the callback's own")
+    check_refusal_justified(chk, "C19.refusal-justified", prog, eff)
     chk.rule("C19.copy-total", "copying a decoded tree completes: cbor_copy (helpers included) returns NULL only where a callee that "
                                "can fail has failed - never because of how deep the tree is (shared with C11.total)")
     chk.rule("C19.serialize-total", "serializing a decoded tree completes: a serializer returns 0 only where a nested encoder/serializer "
